@@ -183,6 +183,7 @@ temporary_stack_initializer::temporary_stack_initializer(std::size_t initial_siz
     FOONATHAN_MEMORY_VERIF_YIELD("temp.initializer.ctor");
     if (!temp_stack)
         temp_stack = temporary_stack_list_obj.create(initial_size);
+    (void)&thread_exit_detector; // ODR-use it also if an existing stack was adopted
 }
 
 temporary_stack_initializer::~temporary_stack_initializer() noexcept
@@ -204,6 +205,7 @@ temporary_stack& foonathan::memory::get_temporary_stack(std::size_t initial_size
     FOONATHAN_MEMORY_VERIF_YIELD("temp.get_temporary_stack");
     if (!temp_stack)
         temp_stack = temporary_stack_list_obj.create(initial_size);
+    (void)&thread_exit_detector; // ODR-use it also if an existing stack was adopted
     return *temp_stack;
 }
 
